@@ -75,7 +75,7 @@ theorem sg_init_sinv {s s3 : St} (w : WFS s) (hbin : binned s.h = []) {tbase tsi
     rw [hbinned, htop, hdv, if_neg (by omega)]; rfl
   have hfr : ∀ a ∈ binned s.h, findEnt s3.h.ents a = findEnt s.h.ents a := by
     intro a ha; rw [hbin] at ha; cases ha
-  refine ⟨⟨?_, ?_, ?_, ?_, ?_, ?_, ?_, ?_, ?_, ?_, ?_⟩, ?_, ?_, ?_⟩
+  refine ⟨⟨?_, ?_, ?_, ?_, ?_, ?_, ?_, ?_, ?_, ?_, ?_⟩, ?_, ?_, ?_, ?_⟩
   · rw [hents]; simp only [entsOk, Bool.and_eq_true, decide_eq_true_eq]; omega
   · rw [hents]
     simp only [shapeOk, List.all_cons, List.all_nil, Bool.and_true, Bool.and_eq_true, Bool.or_eq_true,
@@ -139,12 +139,14 @@ theorem sg_init_sinv {s s3 : St} (w : WFS s) (hbin : binned s.h = []) {tbase tsi
   · intro g hg hne
     rw [hsegs, List.mem_singleton] at hg
     subst hg; exact absurd rfl hne
+  · intro g _ e he _ h8
+    rw [hents] at he
+    simp only [List.mem_cons, List.not_mem_nil, or_false] at he
+    rcases he with rfl | rfl <;> simp only at h8 <;> omega
 
 /-- the state `sys_alloc_place` runs on: `s` after `popM` and the footprint update -/
-structure SgPlace (s s0 : St) : Prop where
-  h : s0.h = s.h
-  segs : s0.segs = s.segs
-  la : s0.least_addr = s.least_addr
+def SgPlace (s s0 : St) : Prop :=
+  ∃ q ev fp mf, s0 = { s with osq := q, evs := ev, footprint := fp, maxfp := mf }
 
 /-- what is known about the fresh mapping -/
 structure SgFresh (s : St) (tbase tsize : Nat) : Prop where
@@ -155,18 +157,19 @@ structure SgFresh (s : St) (tbase tsize : Nat) : Prop where
 theorem sg_place_init {s s0 : St} (hi : SInv s) (hp : SgPlace s s0) {tbase tsize nb : Nat} (hf : SgFresh s tbase tsize)
     (hsz : 96 ≤ tsize) (ht0 : s.h.top = 0) {r : Sum St (St × Nat)}
     (h : sys_alloc_place s0 tbase tsize nb = .ok r) : ∃ s1, r = .inl s1 ∧ SInv s1 ∧ SameUsers s s1 := by
+  obtain ⟨q0, ev0, fp0, mf0, rfl⟩ := hp
   obtain ⟨hnil, hents, hdv, hdvs, hbin⟩ := sg_empty_of_top0 hi.wfs ht0
   obtain ⟨_, hpos, hend, _⟩ := hf.fresh
   unfold sys_alloc_place at h
   dsimp only at h
-  rw [if_pos (by rw [hp.h]; exact ht0)] at h
+  rw [if_pos (by exact ht0)] at h
   simp only [top_foot_size_eq] at h
   msimp at h
   obtain ⟨_, _, _, _, s3, hinit, hr⟩ := h
   obtain ⟨h1, h2, e1, e2, hs3⟩ := sg_init_top_ok hinit (by have := hf.page; omega) (by omega)
   have r1 := writeHead_window_ok e1 (pre := []) (ms := []) (post := [])
-    (by show s0.h.ents = _; rw [hp.h, hents]; rfl) (by simp) (by simp) (by simp)
-  have hpf1 : pfootAt s0.h.ents tbase = 0 := pfootAt_none (by rw [hp.h, hents]; rfl)
+    (by show s.h.ents = _; rw [hents]; rfl) (by simp) (by simp) (by simp)
+  have hpf1 : pfootAt s.h.ents tbase = 0 := pfootAt_none (by rw [hents]; rfl)
   dsimp only at r1
   rw [hpf1] at r1
   subst r1
@@ -187,10 +190,10 @@ theorem sg_place_init {s s0 : St} (hi : SInv s) (hp : SgPlace s s0) {tbase tsize
   refine ⟨_, rfl, ?_, ?_⟩
   · refine sg_init_sinv hi.wfs hbin hf.page hpos hend (by have := hf.gran; omega) hsz ?_ ?_ ?_ ?_ ?_ ?_ ?_ ?_ ?_
     · rfl
-    · show s0.h.sbins = _; rw [hp.h]
-    · show s0.h.tbins = _; rw [hp.h]
-    · show s0.h.dv = _; rw [hp.h]; exact hdv
-    · show s0.h.dvsize = _; rw [hp.h]; exact hdvs
+    · rfl
+    · rfl
+    · exact hdv
+    · exact hdvs
     · rfl
     · rfl
     · rfl
@@ -246,7 +249,7 @@ theorem sg_sys_alloc_of_place (hpl : sg_place_Spec) : sys_alloc_Spec' := by
     subst hs1
     have hres : SgPlaceRes s nb r := by
       refine hpl hi ?_ ?_ hnb ?_ hr
-      · exact ⟨rfl, rfl, rfl⟩
+      · exact ⟨_, _, _, _, rfl⟩
       · exact ⟨hfresh, hpage, l1⟩
       · exact l2
     cases r with
@@ -277,5 +280,90 @@ theorem sg_sys_alloc_of_place (hpl : sg_place_Spec) : sys_alloc_Spec' := by
         obtain ⟨e3, e4⟩ := h
         subst e3; subst e4
         exact ⟨sg_sinv_tag r1 _, fun h0 => absurd rfl h0, fun _ => sg_sameUsers_trans r2 (sg_sameUsers_tag _ _)⟩
+
+theorem sg_replaceSeg_head (g new : Seg) (rest : List Seg) : replaceSeg (g :: rest) g new = new :: rest := by
+  simp [replaceSeg]
+
+/-- `sys-extend`: the fresh mapping starts where the segment holding `top` ends -/
+theorem sg_extend {s : St} (hi : SInv s) {tbase tsize : Nat} (hf : SgFresh s tbase tsize)
+    (hsz : 96 ≤ tsize) {sp : Seg} (hsp : sp ∈ s.segs) (hspt : sp.top = tbase) (hsph : sp.holds s.h.top = true)
+    {q0 : List OsDir} {ev0 : List OsEv} {fp0 mf0 : Nat} {s3 : St}
+    (hinit : init_top { s with osq := q0, evs := ev0, footprint := fp0, maxfp := mf0,
+                               segs := replaceSeg s.segs sp { sp with size := sp.size + tsize } }
+        s.h.top (s.h.topsize + tsize) = .ok s3) :
+    SInv s3 ∧ SameUsers s s3 := by
+  have w := hi.wfs
+  obtain ⟨g0, rest, pre, x, f, post, hsegs, hes, hxa, hxf, hxs, hfa, hfc, hfp, hfs, hgb, hgt, htop0, hgx, hgf⟩ :=
+    w.top_parts (w.topsize_ne hsp)
+  have hg0 : g0 ∈ s.segs := by rw [hsegs]; exact List.mem_cons_self
+  obtain ⟨d1, d2, d3⟩ := sg_segsOk_cons w.segs hsegs
+  have hd0 := d3 g0 List.mem_cons_self
+  obtain ⟨_, hpos, hend, hfr⟩ := hf.fresh
+  -- the segment found is the head segment
+  have hspx : inSeg sp x = true := by
+    unfold Seg.holds Seg.top at hsph
+    simp only [Bool.and_eq_true, decide_eq_true_eq] at hsph
+    rw [inSeg_iff]; omega
+  have : sp = g0 := sg_seg_unique w.segsDisjoint hsp hg0 hspx hgx
+  subst this
+  unfold Seg.top at hspt
+  rw [hsegs, sg_replaceSeg_head] at hinit
+  have hxm : x ∈ s.h.ents := by rw [hes]; simp
+  obtain ⟨hxc, hxp⟩ := isFree_iff.1 hxf
+  obtain ⟨hx16, hxs16, hxs16'⟩ := shapeOk_free w.shape hxm hxc
+  have hok := w.ents
+  rw [hes] at hok
+  have hok2 : entsOk (pre ++ x :: f :: post) = true := by simpa using hok
+  obtain ⟨o1, o2, o3, o4, o5⟩ := entsOk_mid2 hok2
+  have hpostfresh : ∀ q ∈ post, tbase + tsize ≤ q.addr := by
+    intro q hq
+    have h1 := o5 q hq
+    have hqm : q ∈ s.h.ents := by rw [hes]; simp [hq]
+    have := entsOk_pos w.ents q hqm
+    rcases sg_fresh_ents w hfr q hqm with h | h <;> omega
+  obtain ⟨h1, h2, e1, e2, hs3⟩ := sg_init_top_ok hinit (by omega) (by omega)
+  have r1 := writeHead_window_ok e1 (pre := pre) (ms := [x, f]) (post := post)
+    (by show s.h.ents = _; rw [hes]; simp)
+    (by intro q hq; have := o1 q hq; omega)
+    (by
+      intro m hm
+      simp only [List.mem_cons, List.not_mem_nil, or_false] at hm
+      rcases hm with rfl | rfl <;> omega)
+    (by intro q hq; have := hpostfresh q hq; omega)
+  have hpf1 : pfootAt s.h.ents s.h.top = x.pfoot := by
+    apply pfootAt_some; rw [← hxa]; exact entsOk_find x hxm w.ents
+  dsimp only at r1
+  rw [hpf1] at r1
+  subst r1
+  have r2 := writeHead_window_ok e2
+    (pre := pre ++ [{ addr := s.h.top, size := s.h.topsize + tsize, cin := false, pin := true, pfoot := x.pfoot }])
+    (ms := []) (post := post)
+    (by simp)
+    (by
+      intro q hq
+      rcases List.mem_append.1 hq with hq | hq
+      · have := o1 q hq; omega
+      · simp only [List.mem_singleton] at hq; subst hq; simp only; omega)
+    (by simp)
+    (by intro q hq; have := hpostfresh q hq; omega)
+  dsimp only at r2
+  generalize pfootAt _ (s.h.top + (s.h.topsize + tsize)) = pf at r2
+  subst r2
+  subst hs3
+  refine sg_retop hi (pre := pre) (post := post) (x := x) (f := f) (n := s.h.topsize + tsize)
+    (newsize := sp.size + tsize) hsegs (by rw [hes]; simp) hxa hxf hxs hfa hfc hfp hfs hgb hgt
+    (x' := { addr := s.h.top, size := s.h.topsize + tsize, cin := false, pin := true, pfoot := x.pfoot })
+    (f' := { addr := s.h.top + (s.h.topsize + tsize), size := 80, cin := false, pin := false, pfoot := pf })
+    (by simp) rfl rfl rfl rfl rfl rfl rfl rfl rfl (by have := hf.gran; omega) (by omega) (by omega)
+    (by have := hf.gran; omega) (by omega) ?_ (by intro q hq; have := hpostfresh q hq; omega)
+    rfl rfl rfl rfl rfl rfl rfl
+  intro g hg
+  have := d3 g (List.mem_cons_of_mem _ hg)
+  have hgm : g ∈ s.segs := by rw [hsegs]; exact List.mem_cons_of_mem _ hg
+  rcases d1 g hg with h | h
+  · rcases hfr g hgm with h' | h'
+    · left; omega
+    · omega
+  · right; exact h
 
 end TinyVerif.Dl
